@@ -347,6 +347,25 @@ func (a *curAnalysis) guardedAt(fd *core.FuncDecl, at ast.Node, e ast.Expr) bool
 	if node == nil {
 		return false
 	}
+	validOther := func(other ast.Expr) bool {
+		if !isCurrencyCode(info.TypeOf(other)) {
+			return false
+		}
+		if tv, ok := info.Types[other]; ok && tv.Value != nil {
+			return tv.Value.ExactString() != `""`
+		}
+		if v := core.VarOf(info, other); v != nil {
+			sig := fd.Obj.Type().(*types.Signature)
+			for i := 0; i < sig.Params().Len(); i++ {
+				if sig.Params().At(i) == v {
+					// equal to a parameter: valid iff the parameter is — record the requirement
+					a.addReq(fd.Obj, i, "equality guard in "+fd.Name())
+					return true
+				}
+			}
+		}
+		return false
+	}
 	for leaf, val := range ff.Flow.CondsAt(node) {
 		be, ok := ast.Unparen(leaf).(*ast.BinaryExpr)
 		if !ok || (be.Op != token.EQL && be.Op != token.NEQ) {
@@ -374,27 +393,144 @@ func (a *curAnalysis) guardedAt(fd *core.FuncDecl, at ast.Node, e ast.Expr) bool
 			} else if sameExpr(y, e) {
 				other = x
 			}
-			if other != nil && isCurrencyCode(info.TypeOf(other)) {
-				if tv, ok := info.Types[other]; ok && tv.Value != nil {
-					if tv.Value.ExactString() != `""` {
-						return true
-					}
-					continue
-				}
-				if v := core.VarOf(info, other); v != nil {
-					sig := fd.Obj.Type().(*types.Signature)
-					for i := 0; i < sig.Params().Len(); i++ {
-						if sig.Params().At(i) == v {
-							// equal to a parameter: valid iff the parameter is — record the requirement
-							a.addReq(fd.Obj, i, "equality guard in "+fd.Name())
-							return true
-						}
+			if other != nil && validOther(other) {
+				return true
+			}
+		}
+	}
+	// the same equality as the result condition of a search helper: e is x.F…, x := find(…, c, …)
+	// was found non-nil, and find returns only nil or an element whose F… equals its parameter c
+	if other := a.searchPost(fd, ff, node, e); other != nil && validOther(other) {
+		return true
+	}
+	return false
+}
+
+// searchPost: e is a field path x.F… of a local x defined once as the result of
+// a module function, x is known non-nil at node, and every return of that
+// function is nil or a variable r at a point where r.F… == <parameter i> holds.
+// The result is the i-th argument of the call: e equals it.
+func (a *curAnalysis) searchPost(fd *core.FuncDecl, ff *core.FuncFlow, node ast.Node, e ast.Expr) ast.Expr {
+	info := fd.Pkg.TypesInfo
+	var path []*types.Var
+	x := ast.Unparen(e)
+	for {
+		se, ok := x.(*ast.SelectorExpr)
+		if !ok {
+			break
+		}
+		f := core.FieldOf(info, se)
+		if f == nil {
+			return nil
+		}
+		path = append([]*types.Var{f}, path...)
+		x = ast.Unparen(se.X)
+	}
+	root := core.VarOf(info, x)
+	if root == nil || len(path) == 0 {
+		return nil
+	}
+	if _, isPtr := root.Type().Underlying().(*types.Pointer); !isPtr {
+		return nil
+	}
+	defs := core.NewLocalDefs(info, fd.Decl.Body).All(root)
+	if len(defs) != 1 || defs[0].RHS == nil || defs[0].N != 1 {
+		return nil
+	}
+	call, ok := ast.Unparen(defs[0].RHS).(*ast.CallExpr)
+	if !ok {
+		return nil
+	}
+	nonNil := false
+	for leaf, val := range ff.Flow.CondsAt(node) {
+		g := core.GuardOf(info, leaf, ff.Errs)
+		if (g.Kind == "nil" || g.Kind == "err") && core.VarOf(info, g.X) == root && val == g.Neg {
+			nonNil = true
+		}
+	}
+	if !nonNil {
+		return nil
+	}
+	fn := core.Callee(info, call)
+	if fn == nil || !core.InModule(fn.Pkg()) {
+		return nil
+	}
+	cfd := a.p.DeclOf(fn)
+	if cfd == nil {
+		return nil
+	}
+	cinfo := cfd.Pkg.TypesInfo
+	cff := core.NewFuncFlow(cfd)
+	sig := fn.Type().(*types.Signature)
+	samePath := func(y ast.Expr, rv *types.Var) bool {
+		y = ast.Unparen(y)
+		for i := len(path) - 1; i >= 0; i-- {
+			se, ok := y.(*ast.SelectorExpr)
+			if !ok || core.FieldOf(cinfo, se) != path[i] {
+				return false
+			}
+			y = ast.Unparen(se.X)
+		}
+		return core.VarOf(cinfo, y) == rv
+	}
+	param, bad, n := -1, false, 0
+	ast.Inspect(cfd.Decl.Body, func(m ast.Node) bool {
+		if _, isLit := m.(*ast.FuncLit); isLit {
+			return false
+		}
+		r, isR := m.(*ast.ReturnStmt)
+		if !isR {
+			return true
+		}
+		if len(r.Results) != 1 {
+			bad = true
+			return true
+		}
+		if core.IsNil(cinfo, r.Results[0]) {
+			return true
+		}
+		rv := core.VarOf(cinfo, r.Results[0])
+		if rv == nil {
+			bad = true
+			return true
+		}
+		n++
+		found := -1
+		for leaf, val := range cff.Flow.CondsAt(cff.Flow.EnclosingNode(r)) {
+			be, ok := ast.Unparen(leaf).(*ast.BinaryExpr)
+			if !ok || !((be.Op == token.EQL && val) || (be.Op == token.NEQ && !val)) {
+				continue
+			}
+			l, rr := be.X, be.Y
+			if samePath(rr, rv) {
+				l, rr = rr, l
+			}
+			if !samePath(l, rv) {
+				continue
+			}
+			if pv := core.VarOf(cinfo, rr); pv != nil {
+				for i := 0; i < sig.Params().Len(); i++ {
+					if sig.Params().At(i) == pv {
+						found = i
 					}
 				}
 			}
 		}
+		if found < 0 || (param >= 0 && param != found) {
+			bad = true
+		}
+		param = found
+		return true
+	})
+	if bad || n == 0 || param < 0 || param >= len(call.Args) {
+		return nil
 	}
-	return false
+	// the parameter must not be reassigned in the helper
+	for _, d := range core.NewLocalDefs(cinfo, cfd.Decl.Body).All(sig.Params().At(param)) {
+		_ = d
+		return nil
+	}
+	return call.Args[param]
 }
 
 // checkedGetter recognises bill.calculate's idiom.
